@@ -5,6 +5,7 @@ cd "$(dirname "$0")"
 export PYTHONHASHSEED=0
 mkdir -p .work evidence replays coq/theories/Gen
 PYTHONPATH="$PWD" /venv/bin/python harness/translate/main.py > .work/translate.log
+/venv/bin/python harness/mkcoqproject.py
 cd coq
 coq_makefile -f _CoqProject -o Makefile > /dev/null
 # -k: a Gen unit refused by the translator must not stop the rest of the build
